@@ -60,8 +60,23 @@ def sources(s, i, tmpdir):
         doc = gen.rand_ro(rng, pool=pool)
     else:
         doc = gen.rand_message(rng, state, kind, rng.randint(1, 99999), gen.Ids('d%d.' % i), pool=pool)
+    r = rng.random()
+    if r < 0.06:
+        # well-formed but not a message the library knows: every source must refuse it the same way
+        kind, doc = 'unclassifiable', rng.choice(UNCLASSIFIABLE)
+    elif r < 0.09:
+        kind, doc = 'malformed', rng.choice(['<mos><roCreate>', 'not xml', ''])
     enc = ENCODINGS[i % len(ENCODINGS)]
     judge_sources(s, doc, enc, kind, tmpdir, i)
+
+
+UNCLASSIFIABLE = [
+    '<mos><mosID>M</mosID><ncsID>N</ncsID><messageID>7</messageID><heartbeat><time>2020-01-01T00:00:00</time></heartbeat></mos>',
+    '<mos><mosID>M</mosID><messageID>8</messageID><roElementAction operation="MOVE"><roID>RO</roID>'
+    '<element_target><storyID>A</storyID></element_target><element_source><itemID>i</itemID></element_source>'
+    '</roElementAction></mos>',
+    '<mos><mosID>M</mosID><messageID>9</messageID><roListAll/></mos>',
+]
 
 
 def judge_sources(s, doc, enc, kind, tmpdir, i=0):
@@ -83,7 +98,14 @@ def judge_sources(s, doc, enc, kind, tmpdir, i=0):
         if not doc.lstrip().startswith('<?xml') and '<!DOCTYPE' not in doc:
             decl = '<?xml version="1.0" encoding="ISO-8859-1"?>\n' + doc
             ways['str-declared-latin1'] = lambda: MosFile.from_string(decl)
-    res = {}
+    import mosromgr.moscollection as mcmod
+    MosReader = mcmod.MosReader
+    rways = {
+        'file': lambda: MosReader.from_file(path),
+        'bytes': lambda: MosReader.from_string(data),
+        's3': lambda: MosReader.from_s3(bucket_name='srcbucket', mos_file_key='some/key.mos.xml'),
+    }
+    res, rres = {}, {}
     EV.STATE['quiet'] = EV.STATE.get('quiet', 0) + 1
     try:
         for name, fn in ways.items():
@@ -91,10 +113,25 @@ def judge_sources(s, doc, enc, kind, tmpdir, i=0):
                 o = fn()
                 res[name] = (type(o).__name__, str(o))
             except Exception as e:
-                res[name] = ('EXC:' + type(e).__name__, str(e)[:100])
+                res[name] = ('EXC:' + type(e).__name__, '')      # the class of the refusal; its wording may name a line
+        # the collection readers over the same content: same refusal, or same (class, IDs, restored text)
+        for name, fn in rways.items():
+            try:
+                mr = fn()
+                rres[name] = ('None',) if mr is None else (mr.mos_type.__name__, mr.message_id, mr.ro_id, str(mr.mos_object))
+            except Exception as e:
+                rres[name] = ('EXC:' + type(e).__name__,)
     finally:
         EV.STATE['quiet'] -= 1
     s.evaluations += 1
+    first = next(iter(res.values()))
+    want_r = (first[0],) if first[0].startswith('EXC:') else None
+    if len(set(rres.values())) != 1 or (want_r is not None and next(iter(rres.values())) != want_r) or \
+            (want_r is None and next(iter(rres.values()))[0] != first[0]):
+        s.custom_violation('readers-disagree-across-sources', {'kind': kind, 'encoding': enc, 'library_class': first[0],
+                                                               'readers': {k: v[0] for k, v in rres.items()}},
+                           {'type': 'sources', 'doc': doc, 'encoding': enc}, msg_kind=kind, status=enc)
+    s.hist['reader-sources:' + next(iter(rres.values()))[0][:4]] += 1
     vals = set(res.values())
     s.note_sig(('sources', kind, enc, len(vals) == 1, next(iter(res.values()))[0]))
     s.hist['sources:' + enc] += 1
@@ -117,6 +154,9 @@ def readers(s, i, tmpdir):
     for k in range(rng.randint(1, 8)):
         kind = K.weighted_kinds(rng, K.kind_weights(1, 1, 0.5, 0.05))
         docs.append(gen.rand_message(rng, state, kind, 10 + 3 * k, ids, pool=pool))
+    if rng.random() < 0.12:
+        # one document the library cannot classify: all three constructors refuse the list the same way
+        docs.insert(rng.randint(1, len(docs)), rng.choice(UNCLASSIFIABLE))
     judge_readers(s, docs, tmpdir, rng)
 
 
